@@ -20,6 +20,7 @@
 #include <utility>
 #include <cmath>
 #include <complex>
+#include <type_traits>
 
 namespace vf {
 
@@ -213,6 +214,13 @@ using Sym4 = Sym<4>;
 using Sym8 = Sym<8>;
 static_assert(sizeof(Sym4) == 4 && sizeof(Sym8) == 8, "carrier sizes");
 
+} // namespace vf
+namespace std {
+// Fastor binds scalar operands of expressions by value only when std::is_arithmetic says so;
+// anything else is bound by reference to a by-value parameter (dangling for user scalars).
+template<int B> struct is_arithmetic<vf::Sym<B>> : std::true_type {};
+}
+namespace vf {
 // digest helpers shared with the Lean driver (FastorModel/Core/Fp.lean: hashStep)
 static inline uint64_t hstep(uint64_t h, uint64_t x) { return mix64(h ^ (x + 0x51ED27ULL)); }
 
